@@ -44,6 +44,14 @@ THEOREMS += [
     'CC.C18_cartesian_zero_im', 'CC.C18_cartesian_zero_re', 'CC.C18_zero_part_read_back', 'CC.C18_zero_text',
     'CC.C18_active_power_text', 'CC.C18_active_reactive_text',
 ]
+# round 5b (CC/Spec/FmtReaders.lean, CC/Proofs/FmtReaders.lean, CC/Properties/C18Readers.lean): verified readers for the
+# Cartesian, time-function and P/Q texts; what a time-function text denotes (bound over a window)
+LEAN_MODULE_EXTRA += ['CC.Properties.C18Readers']
+THEOREMS += [
+    'CC.C18_cartesian_reads_back', 'CC.C18_cartesian_zero_part_reads_back',
+    'CC.C18_sinusoid_reads_back', 'CC.C18_sinusoid_const_reads_back', 'CC.C18_pq_reads_back',
+    'CC.C18_wave_lipschitz', 'CC.C18_sinusoid_denotes',
+]
 OPEN_STATEMENTS = [
     'CC.C18_exponent_decade_statement and CC.C18_real_partial_statement for |v| >= 1e16 only (outside the property domain '
     '1e-15..1e15; proved below 1e16 as C18_exponent_decade_domain / C18_real_domain).  Consequence: under |v| < 1e16 the first '
@@ -56,16 +64,25 @@ OPEN_STATEMENTS = [
     'finding 2, C18_complex_suppression_counterexample: |im| = 20|re| dropped).  Values with an EXACTLY zero part are now proved '
     '(C18_cartesian_zero_im / _zero_re / C18_zero_part_read_back: exactly that part is omitted, the other is the real path; the '
     'number 0 itself: C18_zero_text); a non-zero part that is_zero suppresses remains finding 2',
-    'a verified reader for the composite texts: proved for the polar text (C18_polar_reads_back: parsePolar on the model text, '
-    'for CfgOK configurations whose unit / prefixes do not contain the separator) — NOT for parseCartesian (that it splits the '
-    'text at the places C18_complex_shown_parts names) and not for the sinusoid / P-Q texts, for which the Spec has no reader: '
-    'their structure is proved (C18_time_text, C18_active_reactive_text) and each number in them reads back by the real path '
-    '(C18_time_parts_read_back), the split of the whole string is covered by the correspondence and the oracle only',
+    'a verified reader for the composite texts: now proved for all four — polar (C18_polar_reads_back), Cartesian '
+    '(C18_cartesian_reads_back / C18_cartesian_zero_part_reads_back: parseCartesian of CC/Spec/Fmt.lean, the reader the oracle '
+    'runs, returns exactly the parts C18_complex_shown_parts names, each RealOK w.r.t. the SIGNED part), time function '
+    '(C18_sinusoid_reads_back / _const_reads_back: parseSinusoid of CC/Spec/FmtReaders.lean, amplitude / frequency / phase '
+    'RealOK, flags) and P/Q (C18_pq_reads_back: parsePQ).  Hypotheses that remain: CfgOK, InDomain of every number shown, and '
+    'the separators (j, space; the dot of the time function) do not occur in the unit or a prefix letter (true of every unit '
+    'and table of the code).  In degree mode the phase reads back to |degrees(phase)| with the sign of the phase in radians '
+    '(shownPhase): that degrees(phase) has the sign of phase is a property of the parameter, not proved.  Still open here: '
+    'a combined text-level corollary that instantiates C18_sinusoid_denotes with the three half-unit tolerances of the parsed '
+    'numbers (the pieces are proved: C18_sinusoid_reads_back gives the three RealOK facts, C18_wave_lipschitz / '
+    'C18_sinusoid_denotes the bound |A-A\'| + |A|(|w-w\'|T + |phi-phi\'|) for ALL reals; the instantiation needs finiteness of '
+    'the texts (no saturation) and the casts Q -> R, not written)',
     'polar / time function: abs(value), np.angle, cmath.phase (+ quarter turn), degrees, w/2/pi are PARAMETERS of the model.  '
     'The theorems say the text denotes the numbers handed to the formatter (magnitude: RealOK; angle: within 0.5e-4 rad / '
     '0.5e-2 deg, C18_polar_angle_text; phase: real path with p digits); that these numbers are |z| and arg z of the value is '
     'oracle only.  C18_time_function_denotes proves over the reals that Re(X e^{jwt}) = |X|cos(wt+arg X) = |X|sin(wt+arg X+shift*pi/2) '
-    'for the generated shift — for exact modulus/argument, not for the libm values',
+    'for the generated shift — for exact modulus/argument, not for the libm values; C18_sinusoid_denotes (round 5b) bounds the '
+    'distance of ANY wave A\'cos/sin(w\'t+phi\') from Re(X e^{jwt}) on |t| <= T by |‖X‖-A\'| + ‖X‖(|w-w\'|T + |arg X (+shift*pi/2) - phi\'|), '
+    'so the libm deviation enters as an explicit term instead of an exactness assumption — its size is still oracle only',
     'the polar angle carries a FIXED number of decimals (4 / 2), not p significant digits: C18_polar_angle_text is the strongest '
     'true statement (open finding 3; C18_polar_small_angle_text: 2e-5 rad is shown as 0.0000); '
     'print_active_reactive_power omits Q below an ABSOLUTE threshold (C18_active_reactive_text states it; open finding 4)',
